@@ -2,6 +2,7 @@ import Driver.Util
 import NutsModel.C04.Token
 import NutsModel.C04.Limiter
 import NutsModel.C04.Uuid
+import NutsModel.C04.Config
 import NutsModel.Facts.C04
 open Lean Nuts.Drv Nuts.C04 Nuts
 
@@ -145,6 +146,25 @@ def step (st : St) (j : Json) : St × List String :=
     match tokenDecision Facts.C04.policy (jStr j "aud") keys (jInt j "now") hdr (parseAnalysis (jObj j "tok")) with
     | .granted u => (st, ["granted user:" ++ u])
     | .denied => (st, ["denied"])
+  | "cfgload" =>
+    let leaf := fun (l : Json) =>
+      ((jStr l "k").toList, match l.getObjVal? "s" with
+        | .ok (.str v) => CfgVal.str v.toList
+        | _ => CfgVal.list ((jStrs l "l").map (·.toList)))
+    let pair := fun (p : Json) => match p with
+      | .arr a => (((a[0]?.bind (·.getStr?.toOption)).getD "").toList, ((a[1]?.bind (·.getStr?.toOption)).getD "").toList)
+      | _ => (([] : Str), ([] : Str))
+    let flags := (jArr j "flags").map pair
+    let defaults := (Facts.C04.httpFlags.filter (fun f => f.2.1 == "String")).map (fun f => (f.1.toList, f.2.2.toList))
+    -- a flag nobody registered makes pflag.Parse fail
+    if flags.any (fun f => !(Facts.C04.httpFlags.any (fun d => d.1.toList = f.1))) then (st, ["flag-error"]) else
+    let src : Sources := { file := if jBool j "hasfile" then (jArr j "file").map leaf else [], env := (jArr j "env").map pair, flags := flags, defaults := defaults }
+    match loadHttpConfig Facts.C04.core_defaultEnvPrefix.toList src with
+    | .error _ => (st, ["inject-error"])
+    | .ok c =>
+      let keysOK := (jStrs j "okpaths").any (fun p => p.toList = c.keysPath)
+      let conf := match configureOutcome Facts.C04.internalBinds c keysOK with | .error => "error" | _ => "ok"
+      (st, [s!"type={hexStr c.authType} aud={hexStr c.audience} keys={hexStr c.keysPath} int={hexStr c.intAddr} pub={hexStr c.pubAddr} log={hexStr c.log} configure={conf}"])
   | "uuid" => (st, [toString (uuidParse (unhexStr (jStr j "s")))])
   | "configure" =>
     -- keys file states: ok / empty parse fine (an empty file gives zero keys), missing / garbage make New(FromFile) fail
